@@ -53,7 +53,10 @@ def conversion(case, d):
             il, xl = list(range(1, n_il + 1)), list(range(1, n_xl + 1))
             cols.update(sgy.regular_cols(il, xl))
             sgy.write_segy(path, data.reshape(-1, ns), cols, 4000, fmt=5, grid=(il, xl))
-    return (lambda: conv.segy_convert(path, out, rate, bs, header_detection=case.get("mode", "heuristic"))), out
+    # SEG-Y routes: the capacity is also set the way a caller gets it (converter.mem_limit -> check_memory ->
+    # queue_size), so that whatever the pipeline decides from its queue size is decided as in a real run
+    return (lambda: conv.segy_convert(path, out, rate, bs, header_detection=case.get("mode", "heuristic"),
+                                      queue=case.get("cap"))), out
 
 
 def scheduled(case, d, choices, policy="choices"):
